@@ -183,6 +183,17 @@ DiffOfReads(rs, rd) ==
 
 DiffOp(src, dst, sel, from, until0) == DiffOfReads(ReadFile(src, sel, from, until0), ReadFile(dst, sel, from, until0))
 
+\* diff with a glob pattern: every matched file is compared in order; a differing (or missing) file makes
+\* the whole run report a difference; an error stops the run
+RECURSIVE GlobDiff(_, _, _, _, _, _)
+GlobDiff(pairs, sel, from, until0, found, recs) ==
+  IF pairs = <<>> THEN [k |-> IF found THEN "diff" ELSE "clean", recs |-> recs]
+  ELSE LET r == DiffOp(Head(pairs)[1], Head(pairs)[2], sel, from, until0)
+       IN IF r.k = "err" THEN [k |-> "err", recs |-> recs]
+          ELSE IF r.k = "err-or-diff" THEN [k |-> "any", recs |-> recs]
+          ELSE GlobDiff(Tail(pairs), sel, from, until0, found \/ r.k = "diff", recs \o r.recs)
+GlobDiffOp(pairs, sel, from, until0) == GlobDiff(pairs, sel, from, until0, FALSE, <<>>)
+
 (***************************************************************************)
 (* sum / sum-copy / sum-diff                                               *)
 (***************************************************************************)
@@ -229,6 +240,17 @@ SumDiffOp(files, dst, sel, from, until0) ==
      ELSE IF rs.cfg.layout # rd.cfg.layout THEN [k |-> "err", recs |-> <<>>]
      ELSE LET recs == AllDiffRecs(rs.ts, rd.ts, 1)
           IN [k |-> IF recs = <<>> THEN "clean" ELSE "diff", recs |-> recs]
+
+\* sum-diff over several items (item glob): every item is compared in order; one deviating item makes the
+\* whole run report a difference; a missing side is reported and skipped; an error stops the run
+RECURSIVE GlobSumDiff(_, _, _, _, _, _)
+GlobSumDiff(items, sel, from, until0, found, recs) ==
+  IF items = <<>> THEN [k |-> IF found THEN "diff" ELSE "clean", recs |-> recs]
+  ELSE LET r == SumDiffOp(Head(items)[1], Head(items)[2], sel, from, until0)
+       IN IF r.k = "err" THEN [k |-> "err", recs |-> recs]
+          ELSE IF r.k = "err-or-missing" THEN [k |-> "any", recs |-> recs]     \* both sides of an item fail concurrently: left open
+          ELSE GlobSumDiff(Tail(items), sel, from, until0, found \/ r.k = "diff", recs \o r.recs)
+GlobSumDiffOp(items, sel, from, until0) == GlobSumDiff(items, sel, from, until0, FALSE, <<>>)
 
 (***************************************************************************)
 (* view / view-raw                                                         *)
@@ -338,6 +360,16 @@ C09 ==
                     \E i \in 1..Len(rs.ts[a].vals) : rs.ts[a].vals[i] # rd.ts[a].vals[i]
        /\ (rs.k = "ok" /\ rd.k = "notexist") => res.k = "diff"
        /\ (rs.k = "ok" /\ rd.k = "ok" /\ rs.cfg.layout # rd.cfg.layout) => res.k = "err"
+
+\* one differing file anywhere in the list makes the run report a difference (C09)
+GlobDiffLaw ==
+  \A sel \in SelGrid, w \in WindowGrid :
+    LET one == DiffOp(Src, Dst, sel, w[1], w[2])
+        self == DiffOp(Src, Src, sel, w[1], w[2])
+    IN (one.k = "diff" /\ self.k = "clean") =>
+         /\ GlobDiffOp(<<<<Src, Dst>>, <<Src, Src>>>>, sel, w[1], w[2]).k = "diff"
+         /\ GlobDiffOp(<<<<Src, Src>>, <<Src, Dst>>>>, sel, w[1], w[2]).k = "diff"
+         /\ GlobDiffOp(<<<<Src, Src>>, <<Src, Dst>>, <<Src, Src>>>>, sel, w[1], w[2]).recs = one.recs
 
 (***************************************************************************)
 (* C10  sum                                                                *)
